@@ -119,6 +119,7 @@ Definition parse_pat (v : val) : option pat :=
       else if String.eqb s "w" then Some PWild else if String.eqb s "k" then Some PConst
       else if String.eqb s "q" then Some PPath else if String.eqb s "b" then Some PByteStr
       else if String.eqb s "i" then Some PInt else if String.eqb s "h" then Some PChar
+      else if String.eqb s "m" then Some PConcatBad else if String.eqb s "z" then Some PConcatBad
       else None
   | _ => None
   end.
